@@ -52,13 +52,16 @@ def standard_cases():
     cases = c02.corpus_cases()
     single = c02.single_join_cases(rng, False)
     chains = c02.chain_cases(rng, False)
+    spelled = c02.spelled_cases(rng, False)
     rnd = c02.random_cases(rng, 150)
     rng.shuffle(single)
     rng.shuffle(chains)
     # every spelling x on-form for independent inputs, then a spread of the rest
     keep = [c for c in single if c["origin"].startswith("single:independent0") and c["origin"].split(":")[4] in ("mixed",)]
     rest = [c for c in single if c not in keep]
-    cases += keep + rest[:450] + chains[:160] + rnd
+    ands = [c for c in rest if c["origin"].split(":")[3:4] == ["and"]]
+    rest = [c for c in rest if c not in ands]
+    cases += keep + ands[:60] + rest[:400] + chains[:160] + spelled + rnd
     return cases
 
 
